@@ -39,6 +39,8 @@ def run(ck, ctx):
     ck.rule("R01.9", "index windows are resolved alike: RedisList::range (LRANGE) and RedisList::trim (LTRIM) clamp start/stop with the same "
                      "max/min operations on the same quantities (negative indices count from the tail, out-of-range indices are clamped, "
                      "not rejected)")
+    ck.rule("R01.10", "integer commands reject what they cannot represent: a client-supplied integer is negated with checked_neg (error on "
+                      "i64::MIN), never with a saturating/wrapping negation or a bare `-x` (DECRBY n = INCRBY -n only when -n exists)")
     ck.nd("equality of every reply and of the keyspace with Redis for all argument values (needs a reference model + execution)")
     ck.nd("option-combination semantics, numeric results")
     for cfg in ctx.configs:
@@ -54,6 +56,7 @@ def run(ck, ctx):
         _r016(ck, prog, cfg, meths)
         _r018(ck, prog, cfg, meths)
         _r019(ck, prog, cfg)
+        _r0110(ck, prog, cfg, meths)
         _r017(ck, prog, cfg)
 
 
@@ -662,3 +665,36 @@ def _r019(ck, prog, cfg):
              "LRANGE and LTRIM resolve their index window differently: only range has %s; only trim has %s (an index below -len or beyond the "
              "end is clamped by one command and rejected or mis-placed by the other)" % (sorted(sa - sb), sorted(sb - sa)), fb[0].where(),
              detail="same clamps: %s" % sorted(sa))
+
+
+def _r0110(ck, prog, cfg, meths):
+    n = 0
+    class _M:
+        short = "execute"
+    disp = [(_M, f) for f in prog.with_children(prog.one("redis::executor::CommandExecutor::execute"))]
+    for m, f in disp + list(_bodies(prog, meths)):
+        for b, t in f.calls():
+            if is_callee(t, r"<impl i(64|size)>::(checked|saturating|wrapping|unchecked|overflowing|strict)_neg$"):
+                a = src_of_operand(f, t["args"][0], through_calls=TRANSPARENT)
+                from_cmd = (a.kind == "path" and (a.root == "cmd" or (a.local is not None and 1 < a.local <= f.d["argc"]))) or a.kind in ("path",)
+                if not from_cmd:
+                    continue
+                n += 1
+                meth = callee(t).rsplit("::", 1)[-1]
+                ck.check(meth == "checked_neg", "R01.10", "%s:%s%s" % (m.short, meth, _tag(cfg)),
+                         "a client-supplied integer is negated with %s: i64::MIN has no negation, so the command silently computes with a "
+                         "different number instead of answering an out-of-range error" % meth, f.where(t["ln"]), detail="checked_neg")
+            if is_callee(t, r"Option::<i(64|size)>::(unwrap_or|unwrap_or_default)$") and t["args"]:
+                a = src_of_operand(f, t["args"][0], through_calls=TRANSPARENT)
+                if a.kind == "call" and is_callee(a.term, r"::checked_neg$"):
+                    ck.bad("R01.10", "%s:checked_neg-defaulted%s" % (m.short, _tag(cfg)),
+                           "the failure of checked_neg is replaced by a default number instead of an out-of-range error", f.where(t["ln"]))
+        for b, i, st in f.stmts():
+            rv = st["rv"]
+            if rv["k"] == "un" and rv["op"] == "Neg":
+                a = src_of_operand(f, rv["a"], through_calls=TRANSPARENT)
+                ty = f.locals[op_place(rv["a"])["l"]] if op_place(rv["a"]) is not None and "p" not in op_place(rv["a"]) else ""
+                if ty in ("i64", "isize") and a.kind == "path" and (a.root == "cmd" or (a.local is not None and 1 < a.local <= f.d["argc"])):
+                    n += 1
+                    ck.bad("R01.10", "%s:neg%s" % (m.short, _tag(cfg)), "a client-supplied integer is negated with a bare `-x` (overflow on i64::MIN)", f.where(st["ln"]))
+    ck.floor("R01.10" + _tag(cfg), n, 1)
